@@ -174,7 +174,7 @@ class SingleItemDecoder(object):
         if LOG:
             LOG('calling decoder %s on Python type %s '
                 '<%s>' % (type(valueDecoder).__name__,
-                          type(pyObject).__name__, repr(pyObject)))
+                          type(pyObject).__name__, debug.show(pyObject)))
 
         value = valueDecoder(pyObject, asn1Spec, self, **options)
 
